@@ -945,8 +945,16 @@ class World:
         if not reverse and len(a) <= 2:
             # find(part, lo) == IndexOf when lo within [0, len]; lo > len gives -1
             raw = a[1] if len(a) > 1 else 0
-            r = z3.If(zi(raw) > ln, z3.IntVal(-1), z3.IndexOf(zs_, part, lo))
-            return mk_int(r)
+            r0 = z3.If(zi(raw) > ln, z3.IntVal(-1), z3.IndexOf(zs_, part, lo))
+            r = it.fresh_int("find")
+            plen = z3.Length(part)
+            q = z3.Int(it.fresh("q"))
+            occ = lambda p: z3.And(p >= lo, p + plen <= ln, z3.SubString(zs_, p, plen) == part)
+            it.path.assume(r.z == r0, check=False)
+            it.path.assume(z3.Or(z3.And(r.z == -1, z3.ForAll([q], z3.Not(occ(q)))),
+                                 z3.And(occ(r.z), z3.ForAll([q], z3.Implies(z3.And(q < r.z, q >= lo), z3.Not(occ(q)))))),
+                           check=False)
+            return r
         # general case: result r characterised by first/last occurrence inside the window [lo, hi)
         r = it.fresh_int("rfind" if reverse else "find")
         plen = z3.Length(part)
